@@ -1,6 +1,6 @@
 (* C14 — Slashing accountability: only provable equivocation, once, within caps.  Statement of record. *)
 From Coq Require Import NArith List Bool.
-From V Require Import U64 Extracted Bft BftNet Evidence EvidenceProofs.
+From V Require Import U64 Extracted Bft BftNet Evidence EvidenceProofs EvidenceCollect.
 Import ListNotations.
 Local Open Scope N_scope.
 
@@ -75,3 +75,26 @@ Proof. exact own_one_slash_per_new_pair. Qed.
 Example C14_old_own_certificate_halts :
   handle_double_signers [(3, [5])] [(3, 5)] [] = None /\ handle_own_double_signers [(3, [5]); (4, [5])] [(3, 5)] = Some ([(4, 5); (3, 5)], [4]).
 Proof. exact old_own_certificate_halts. Qed.
+
+(* The COLLECTION of evidence (AddDSE: what a leader gathers from ELECTION votes and its own partial certificates before it proposes a
+   slash list) loses nobody: a piece is dropped only when it is IDENTICAL to a kept one, so whoever any single offered piece accuses is
+   named by the report derived from the whole collection, and the collection always checks.  De-duplicating by the certificates'
+   content alone (view and payloads, ignoring who signed) does lose accused validators: C14_dedupe_by_content_loses_an_accused. *)
+Theorem C14_collection_names_every_accused : forall c m valid es e l r k h,
+  In e es -> process_dse c m valid [e] [] = Some l -> names l k h = true ->
+  process_dse c m valid (collect c m valid es) [] = Some r -> names r k h = true.
+Proof. exact collection_names_every_accused. Qed.
+Print Assumptions C14_collection_names_every_accused.
+Theorem C14_collection_checks : forall c m valid es, exists r, process_dse c m valid (collect c m valid es) [] = Some r.
+Proof. exact collection_checks. Qed.
+Theorem C14_collection_keeps_no_duplicates : forall c m valid es, NoDup (collect c m valid es).
+Proof. exact collect_no_duplicates. Qed.
+Theorem C14_collection_only_offered_pieces : forall c m valid es e,
+  In e (collect c m valid es) -> In e es /\ accuses_somebody c m valid e = true.
+Proof. exact collect_only_offered. Qed.
+Theorem C14_dedupe_by_content_loses_an_accused :
+  exists c m valid es e l k h,
+    In e es /\ process_dse c m valid [e] [] = Some l /\ names l k h = true /\
+    exists r, process_dse c m valid (collect_by_content c m valid es) [] = Some r /\ names r k h = false.
+Proof. exact by_content_loses_an_accused. Qed.
+Print Assumptions C14_dedupe_by_content_loses_an_accused.
